@@ -396,7 +396,7 @@ Section Sufficient.
              (forall y, pub s y -> lowp s n < stp s y < stp s r -> freed s y = true) /\
              (forall m, pcT s t = UFr n m -> nxt_ok s (pred n) m);
     I_nod : forall x,
-            (fwhen (nods s x) = 0 \/ forall u r, ownT s u = S r -> stp s x < stp s r) /\
+            (fwhen (nods s x) = 0 \/ (pub s x /\ forall u r, ownT s u = S r -> stp s x < stp s r)) /\
             forall u, fR (nods s x) u = 0 \/
                       (exists r, ownT s u = S r /\ stp s r < stp s x /\ fR (nods s x) u <= clk s u u) \/
                       (exists y, kind s y = false /\ 0 < stp s y < stp s x /\ freed s y = false /\
@@ -493,7 +493,7 @@ Section Sufficient.
       + rewrite PC in H2 |- * by exact E. destruct (J18 u r n H1 H2) as (A & B & C & D). split; [exact A|]. split; [|split; [exact C|exact D]].
         intros y Hy1 Hy2. destruct (B y Hy1 Hy2); [left; auto|right; apply PM; auto].
     - intros x. destruct (J19 x) as [A B]. split.
-      + destruct A as [A|A]; [left; exact A|right]. intros u r H. rewrite OW in H. eapply A; eauto.
+      + destruct A as [A|[A0 A]]; [left; exact A|right; split; [exact A0|]]. intros u r H. rewrite OW in H. eapply A; eauto.
       + intros u. destruct (B u) as [B1|[(r & R1 & R2 & R3)|(y & Y1 & Y2 & Y3 & Y4)]]; [left; exact B1|right; left|right; right].
         * exists r. rewrite OW. split; [exact R1|]. split; [exact R2|]. eapply Nat.le_trans; [exact R3|apply CM].
         * exists y. split; [exact Y1|]. split; [exact Y2|]. split; [exact Y3|]. destruct Y4 as [(t' & T1 & T2)|Y4]; [left|right; exact Y4].
@@ -814,7 +814,7 @@ Section Sufficient.
     exists pv, mrel (rmw_msg m t c prev v) = Some pv /\ vle c pv /\ vle pv (rmw_clock m prev c) /\
                (forall y, pub s y -> vle (pubv s y) pv) /\
                (zp (read_val 0%Z h 0) = 0 -> length h = 0) /\
-               (forall y, zp (read_val 0%Z h 0) = S y -> stp s y = length h).
+               (forall y, zp (read_val 0%Z h 0) = S y -> stp s y = length h /\ 0 < length h).
   Proof.
     intros I Hr Ha h c prev. unfold rmw_msg, rmw_clock. cbn [mrel]. rewrite Hr, Ha. subst prev.
     destruct h as [|p h'] eqn:Eh.
@@ -829,5 +829,262 @@ Section Sufficient.
       + intros y Py. eapply vle_trans; [|apply vle_join_r]. apply (I_mono _ I x0 y Py).
         destruct (I_stp _ I y) as [A _]. change (hs s L_ZH) with h in A. rewrite Eh in A. lia.
       + unfold read_val. cbn [nth_error]. rewrite V0, zp_pz. discriminate.
-      + intros y Hy. unfold read_val in Hy. cbn [nth_error] in Hy. rewrite V0, zp_pz in Hy. inversion Hy; subst y. exact S0.
+      + intros y Hy. unfold read_val in Hy. cbn [nth_error] in Hy. rewrite V0, zp_pz in Hy. inversion Hy; subst y. split; [exact S0|cbn; lia].
+  Qed.
+
+  Lemma cas_succ_inv s t x g e msg c' pv : Inv s -> pc (ths s t) = RCas x g e ->
+    mval msg = pz (S x) -> mrel msg = Some pv -> vle (clk s t) pv -> vle pv c' ->
+    (forall y, pub s y -> vle (pubv s y) pv) ->
+    (g = 0 -> length (hs s L_ZH) = 0) -> (forall y, g = S y -> stp s y = length (hs s L_ZH) /\ 0 < length (hs s L_ZH)) ->
+    Inv (St (fupd (ths s) t (Th Held (if e then own (ths s t) else S x))) (fupd (clk s) t (vinc c' t))
+            (fupd (hs s) L_ZH (msg :: hs s L_ZH))
+            (fupd (seen s) t (fupd (seen s t) L_ZH (S (length (hs s L_ZH)))))
+            (nrec s) (kind s) (recs s) (nods s) (race s) (fupd (stp s) x (S (length (hs s L_ZH)))) (crt s)
+            (fupd (pubv s) x pv) (wm s) (freed s)).
+  Proof.
+    intros I Ep Hv Hr Hcp Hpc Hall Hg0 HgS. set (L := length (hs s L_ZH)) in *. set (s' := St _ _ _ _ _ _ _ _ _ _ _ _ _ _).
+    destruct (I_reg _ I t x e) as (X1 & X2 & X3 & X4 & X5); [unfold pcT; rewrite Ep; reflexivity|].
+    pose proof (I_cas _ I t x g e) as Hg. unfold pcT in Hg. specialize (Hg Ep).
+    assert (CM : forall u, vle (clk s u) (clk s' u)).
+    { intros u. unfold s'. cbn [ths clk hs seen nrec kind recs nods race stp crt pubv wm freed pc own]. unfold fupd. eqd u t; [|apply vle_refl].
+      eapply vle_trans; [exact Hcp|]. eapply vle_trans; [exact Hpc|apply vle_inc]. }
+    assert (Kt : vle pv (clk s' t)).
+    { unfold s'. cbn [ths clk hs seen nrec kind recs nods race stp crt pubv wm freed pc own]. rewrite fupd_eq. eapply vle_trans; [exact Hpc|apply vle_inc]. }
+    assert (E1 : forall y, y <> x -> stp s' y = stp s y) by (intros y Hy; unfold s'; cbn [ths clk hs seen nrec kind recs nods race stp crt pubv wm freed pc own]; rewrite fupd_ne by exact Hy; reflexivity).
+    assert (E2 : stp s' x = S L) by (unfold s'; cbn [ths clk hs seen nrec kind recs nods race stp crt pubv wm freed pc own]; rewrite fupd_eq; reflexivity).
+    assert (PX : forall y, pub s y -> y <> x) by (intros y Py ->; unfold pub in Py; lia).
+    assert (PB : forall y, pub s' y -> y = x \/ (y <> x /\ pub s y)).
+    { intros y Py. destruct (Nat.eq_dec y x) as [->|Hne]; [left; reflexivity|right]. split; [exact Hne|]. unfold pub in *. rewrite E1 in Py by exact Hne. exact Py. }
+    assert (PB' : forall y, pub s y -> pub s' y) by (intros y Py; unfold pub; rewrite E1 by (apply PX; exact Py); exact Py).
+    assert (SL : forall y, stp s y <= L) by (intros y; apply (I_stp _ I y)).
+    assert (V1 : forall y, y <> x -> pubv s' y = pubv s y) by (intros y Hy; unfold s'; cbn [ths clk hs seen nrec kind recs nods race stp crt pubv wm freed pc own]; rewrite fupd_ne by exact Hy; reflexivity).
+    assert (V2 : pubv s' x = pv) by (unfold s'; cbn [ths clk hs seen nrec kind recs nods race stp crt pubv wm freed pc own]; rewrite fupd_eq; reflexivity).
+    assert (HN : forall y, hs s' (L_nx y) = hs s (L_nx y)) by (intros y; unfold s'; cbn [ths clk hs seen nrec kind recs nods race stp crt pubv wm freed pc own]; rewrite fupd_ne by (unfold L_nx, L_ZH; lia); reflexivity).
+    assert (HO : forall y, hs s' (L_ow y) = hs s (L_ow y)) by (intros y; unfold s'; cbn [ths clk hs seen nrec kind recs nods race stp crt pubv wm freed pc own]; rewrite fupd_ne by (unfold L_ow, L_ZH; lia); reflexivity).
+    assert (HZ : hs s' L_ZH = msg :: hs s L_ZH) by (unfold s'; cbn [ths clk hs seen nrec kind recs nods race stp crt pubv wm freed pc own]; rewrite fupd_eq; reflexivity).
+    assert (OWt : ownT s' t = if e then ownT s t else S x) by (unfold s', ownT; cbn [ths clk hs seen nrec kind recs nods race stp crt pubv wm freed pc own]; rewrite fupd_eq; reflexivity).
+    assert (OW : forall u, u <> t -> ownT s' u = ownT s u) by (intros u Hu; unfold s', ownT; cbn [ths clk hs seen nrec kind recs nods race stp crt pubv wm freed pc own]; rewrite fupd_ne by exact Hu; reflexivity).
+    assert (PC : forall u, u <> t -> pcT s' u = pcT s u) by (intros u Hu; unfold s', pcT; cbn [ths clk hs seen nrec kind recs nods race stp crt pubv wm freed pc own]; rewrite fupd_ne by exact Hu; reflexivity).
+    assert (PCt : pcT s' t = Held) by (unfold s', pcT; cbn [ths clk hs seen nrec kind recs nods race stp crt pubv wm freed pc own]; rewrite fupd_eq; reflexivity).
+    assert (OWS : forall u r, ownT s' u = S r -> (u = t /\ e = false /\ r = x) \/ (r <> x /\ ownT s u = S r)).
+    { intros u r H. eqd u t.
+      - rewrite OWt in H. destruct e; [right|left; inversion H; auto]. split; [|exact H].
+        destruct (I_own _ I t r H) as (_ & P & _). apply PX. exact P.
+      - rewrite OW in H by exact E. right. split; [|exact H]. destruct (I_own _ I u r H) as (_ & P & _). apply PX. exact P. }
+    assert (RL : forall y v, rel s' y v <-> rel s y v) by (intros y v; unfold rel; rewrite HO; tauto).
+    assert (PM : forall u y, passed s u y -> passed s' u y).
+    { intros u y [H|(v & H1 & H2)]; [left; exact H|right]. exists v. split; [apply RL; exact H1|]. eapply vle_trans; [exact H2|apply CM]. }
+    pose proof (I_wm _ I) as W. fold L in W.
+    constructor.
+    - (* I_seen *) intros u l. unfold s'. cbn [seen hs]. pose proof (I_seen _ I u l) as H0. destruct (Nat.eq_dec l L_ZH) as [->|Hl].
+      + rewrite fupd_eq. cbn [length]. fold L. fold L in H0. unfold fupd at 1. eqd u t; [rewrite fupd_eq; lia|lia].
+      + rewrite (fupd_ne (hs s)) by exact Hl. unfold fupd at 1. eqd u t; [rewrite fupd_ne by exact Hl; exact H0|exact H0].
+    - (* I_wm *) change (wm s') with (wm s). rewrite HZ. cbn [length]. fold L. lia.
+    - (* I_stp *) intros y. rewrite HZ. cbn [length]. fold L. change (nrec s') with (nrec s). split.
+      + destruct (Nat.eq_dec y x) as [->|Hne]; [rewrite E2; lia|rewrite E1 by exact Hne; specialize (SL y); lia].
+      + intros Py. destruct (PB y Py) as [->|[_ P]]; [exact X1|apply (I_stp _ I y); exact P].
+    - (* I_inj *) intros y z Py E. destruct (Nat.eq_dec y x) as [->|Hy]; destruct (Nat.eq_dec z x) as [->|Hz]; auto.
+      + rewrite E2, E1 in E by exact Hz. specialize (SL z). lia.
+      + rewrite E2, E1 in E by exact Hy. specialize (SL y). lia.
+      + rewrite !E1 in E by assumption. destruct (PB y Py) as [->|[_ P]]; [contradiction|]. apply (I_inj _ I y z P E).
+    - (* I_all *) intros k Hk. rewrite HZ in Hk. cbn [length] in Hk. fold L in Hk.
+      destruct (Nat.eq_dec k (S L)) as [->|Hne]; [exists x; exact E2|].
+      destruct (I_all _ I k) as [y Hy]; [fold L; lia|]. exists y. rewrite E1; [exact Hy|]. intros ->. lia.
+    - (* I_zh *) intros j m Hn. rewrite HZ in Hn |- *. cbn [length]. fold L. destruct j as [|j]; cbn in Hn.
+      + inversion Hn; subst m. exists x. rewrite E2, V2. split; [lia|]. split; [exact Hv|exact Hr].
+      + destruct (I_zh _ I j m Hn) as (y & A & B & C). fold L in A.
+        assert (j < L) by (apply nth_error_Some; congruence).
+        assert (y <> x) by (intros ->; lia). exists y. rewrite E1, V1 by assumption. split; [lia|auto].
+    - (* I_mono *) intros z y Py Hle. destruct (PB y Py) as [->|[Hy P]].
+      + destruct (Nat.eq_dec z x) as [->|Hz]; [apply vle_refl|]. rewrite E2, E1 in Hle by exact Hz. specialize (SL z). lia.
+      + rewrite V1 by exact Hy. destruct (Nat.eq_dec z x) as [->|Hz]; [rewrite V2; apply Hall; exact P|].
+        rewrite V1 by exact Hz. rewrite !E1 in Hle by assumption. apply (I_mono _ I z y P Hle).
+    - (* I_fresh *) intros y Hy. change (nrec s') with (nrec s) in Hy. assert (y <> x) by lia.
+      rewrite HN, HO, E1 by assumption. apply (I_fresh _ I y Hy).
+    - (* I_reg *) intros u y e0 H. eqd u t; [rewrite PCt in H; discriminate|]. rewrite PC in H by exact E.
+      destruct (I_reg _ I u y e0 H) as (A & B & C & D & F). assert (y <> x) by (intros ->; congruence).
+      change (nrec s') with (nrec s). change (crt s') with (crt s). change (kind s') with (kind s).
+      rewrite E1, OW by assumption. auto.
+    - (* I_pc *) intros u. eqd u t.
+      + rewrite PCt, OWt. destruct e; [exact X5|discriminate].
+      + rewrite PC, OW by exact E. apply (I_pc _ I u).
+    - (* I_rec *) intros y Hy Fy. change (nrec s') with (nrec s) in Hy. change (freed s' y) with (freed s y) in Fy.
+      change (recs s' y) with (recs s y). change (crt s' y) with (crt s y).
+      destruct (I_rec _ I y Hy Fy) as (A & B & C & D). split; [exact A|]. split; [eapply Nat.le_trans; [exact B|apply CM]|]. split.
+      + intros Py. destruct (PB y Py) as [->|[Hne P]]; [rewrite V2, X3; specialize (Hcp t); rewrite X3 in B; lia|rewrite V1 by exact Hne; apply C; exact P].
+      + intros u. destruct (D u) as [D1|[D1 D2]]; [left; exact D1|right]. split; [eapply Nat.le_trans; [exact D1|apply CM]|].
+        eqd u t; [unfold pcT in D2; rewrite Ep in D2; destruct D2 as [D2|[m0 D2]]; discriminate|rewrite PC by exact E; exact D2].
+    - (* I_nx *) intros y j m Hn. rewrite HN in Hn. change (crt s' y) with (crt s y). change (kind s' y) with (kind s y).
+      destruct (I_nx _ I y j m Hn) as (A & B & C). split; [exact A|]. split; [eapply Nat.le_trans; [exact B|apply CM]|].
+      intros Hk Py. destruct (PB y Py) as [->|[Hne P]]; [rewrite V2, X3; specialize (Hcp t); rewrite X3 in B; lia|rewrite V1 by exact Hne; apply C; assumption].
+    - (* I_nxv *) intros y Py Hw. change (wm s') with (wm s) in *. unfold nxt_ok, nvl. rewrite HN. change (wm s') with (wm s).
+      destruct (PB y Py) as [->|[Hne P]].
+      + fold (nvl s (L_nx x)). rewrite Hg, E2. split.
+        * intros E. destruct g as [|y0]; [reflexivity|]. destruct (HgS y0 eq_refl) as [_ G2]. fold L in G2. lia.
+        * intros Hlt. destruct g as [|y0]; [specialize (Hg0 eq_refl); fold L in Hg0; lia|].
+          exists y0. split; [reflexivity|]. destruct (HgS y0 eq_refl) as [G1 G2]. fold L in G1, G2. assert (y0 <> x) by (intros ->; lia).
+          rewrite E1 by assumption. lia.
+      + rewrite E1 in * by exact Hne. destruct (I_nxv _ I y P Hw) as [A B]. split; [exact A|].
+        intros Hlt. destruct (B Hlt) as (y0 & A0 & B0). exists y0. split; [exact A0|]. rewrite E1; [exact B0|]. intros ->. lia.
+    - (* I_ow *) intros y. rewrite HO. change (kind s' y) with (kind s y). change (crt s' y) with (crt s y).
+      destruct (I_ow _ I y) as (A & B & C). split; [destruct A as [A|[v A]]; [left; exact A|right; exists v; apply RL; exact A]|]. split.
+      + intros v Hrl. apply RL in Hrl. destruct (B v Hrl) as (B1 & B2 & B3). split; [exact B1|]. split; [apply PB'; exact B2|]. rewrite HN. exact B3.
+      + intros Hk Py Ho. destruct (PB y Py) as [->|[Hne P]].
+        * exists t. rewrite OWt. rewrite <- X4, Hk. reflexivity.
+        * destruct (C Hk P Ho) as [u Hu]. exists u. eqd u t; [|rewrite OW by exact E; exact Hu].
+          rewrite OWt. destruct e; [exact Hu|]. rewrite X5 in Hu. discriminate.
+    - (* I_own *) intros u r H. change (kind s' r) with (kind s r). change (freed s' r) with (freed s r). change (crt s' r) with (crt s r).
+      change (wm s') with (wm s). rewrite HO.
+      destruct (OWS u r H) as [(-> & -> & ->)|[Hne H0]].
+      + rewrite E2, V2. split; [exact X4|]. split; [unfold pub; rewrite E2; lia|]. split.
+        { destruct (freed s x) eqn:F; [|reflexivity]. destruct (I_free _ I x) as [_ A]. destruct (A F) as [P _]. unfold pub in P. lia. }
+        split; [exact X3|]. split.
+        { destruct (I_ow _ I x) as ([A|[v A]] & B & _); [exact A|]. destruct (B v A) as (_ & P & _). unfold pub in P. lia. }
+        split; [exact Kt|lia].
+      + destruct (I_own _ I u r H0) as (A & B & C & D & F & G & K). rewrite E1, V1 by exact Hne.
+        split; [exact A|]. split; [apply PB'; exact B|]. split; [exact C|]. split; [exact D|]. split; [exact F|]. split; [eapply vle_trans; [exact G|apply CM]|exact K].
+    - (* I_free *) intros y. change (freed s' y) with (freed s y). change (wm s') with (wm s). destruct (I_free _ I y) as [A B]. split.
+      + intros Py Hlt. destruct (PB y Py) as [->|[Hne P]]; [rewrite E2 in Hlt; lia|rewrite E1 in Hlt by exact Hne; auto].
+      + intros F. destruct (B F) as [P B2]. split; [apply PB'; exact P|]. rewrite E1 by (apply PX; exact P).
+        destruct B2 as [B2|(u & r & n & U1 & U2 & U3)]; [left; exact B2|right].
+        assert (u <> t) by (intros ->; unfold pcT in U2; rewrite Ep in U2; discriminate).
+        exists u, r, n. rewrite OW, PC by assumption. split; [exact U1|]. split; [exact U2|].
+        destruct (I_own _ I u r U1) as (_ & Pr & _). rewrite (E1 r) by (apply PX; exact Pr).
+        destruct (I_recl _ I u r n U1 U2) as ([->|(z & -> & Pz & _)] & _); [exact U3|].
+        cbn [lowp] in *. rewrite E1 by (apply PX; exact Pz). exact U3.
+    - (* I_scan *) intros u r n c b H1 H2. assert (u <> t) by (intros ->; rewrite PCt in H2; discriminate).
+      rewrite OW in H1 by assumption. rewrite PC in H2 by assumption.
+      destruct (I_scan _ I u r n c b H1 H2) as (z & A & Pz & Sz & Fz & Pa & Pb & (y0 & Ec & Sy0)).
+      destruct (I_own _ I u r H1) as (_ & Pr & _ & _ & _ & _ & Wr).
+      assert (Py0 : pub s y0) by (unfold pub; lia).
+      exists z. change (wm s') with (wm s). change (freed s' z) with (freed s z).
+      rewrite (E1 z), (E1 r) by (apply PX; assumption).
+      split; [exact A|]. split; [apply PB'; exact Pz|]. split; [exact Sz|]. split; [exact Fz|]. split; [|split].
+      + intros y Py Hy. destruct (PB y Py) as [->|[Hne P]]; [rewrite E2 in Hy; specialize (SL r); lia|].
+        rewrite E1 in Hy by exact Hne. apply PM. apply Pa; assumption.
+      + intros Hb. apply PM. apply Pb. exact Hb.
+      + exists y0. rewrite E1 by (apply PX; exact Py0). auto.
+    - (* I_recl *) intros u r n H1 H2. assert (u <> t) by (intros ->; rewrite PCt in H2; discriminate).
+      rewrite OW in H1 by assumption. rewrite PC in H2 |- * by assumption.
+      destruct (I_recl _ I u r n H1 H2) as (R1 & R2 & R3 & R4).
+      destruct (I_own _ I u r H1) as (_ & Pr & _).
+      change (wm s') with (wm s). rewrite (E1 r) by (apply PX; exact Pr).
+      assert (LP : lowp s' n = lowp s n).
+      { destruct R1 as [->|(z & -> & Pz & _)]; [reflexivity|]. cbn [lowp]. apply E1. apply PX. exact Pz. }
+      split; [|split; [|split]].
+      + destruct R1 as [R1|(z & A & Pz & Sz & Fz)]; [left; exact R1|right]. exists z. rewrite E1 by (apply PX; exact Pz).
+        split; [exact A|]. split; [apply PB'; exact Pz|]. split; [exact Sz|exact Fz].
+      + intros y Py Hy. destruct (PB y Py) as [->|[Hne P]]; [rewrite E2 in Hy; specialize (SL r); lia|].
+        rewrite E1 in Hy by exact Hne. destruct (R2 y P Hy) as [A|A]; [left; exact A|right; apply PM; exact A].
+      + intros y Py Hy. rewrite LP in Hy. destruct (PB y Py) as [->|[Hne P]]; [rewrite E2 in Hy; specialize (SL r); lia|].
+        rewrite E1 in Hy by exact Hne. apply R3; assumption.
+      + intros m0 Hm. destruct (R4 m0 Hm) as [A B]. unfold nxt_ok. change (wm s') with (wm s).
+        destruct R1 as [->|(z & -> & Pz & Sz & _)].
+        * exfalso. pose proof (I_pc _ I u) as Hq. rewrite Hm in Hq. destruct Hq as [_ Hq]. congruence.
+        * cbn [pred] in *. rewrite E1 by (apply PX; exact Pz). split; [exact A|]. intros Hlt. destruct (B Hlt) as (y1 & A1 & B1).
+          exists y1. split; [exact A1|]. rewrite E1; [exact B1|]. intros ->. lia.
+    - (* I_nod *) intros y0. change (nods s' y0) with (nods s y0). destruct (I_nod _ I y0) as [A B].
+      assert (OWK : forall u r, ownT s u = S r -> ownT s' u = S r).
+      { intros u r H. eqd u t; [|rewrite OW by exact E; exact H]. rewrite OWt. destruct e; [exact H|]. rewrite X5 in H. discriminate. }
+      split.
+      + destruct A as [A|[P0 A]]; [left; exact A|right]. split; [apply PB'; exact P0|].
+        rewrite (E1 y0) by (apply PX; exact P0). intros u r H. destruct (OWS u r H) as [(-> & -> & ->)|[Hne H0]].
+        * rewrite E2. specialize (SL y0). lia.
+        * rewrite E1 by exact Hne. eapply A; eauto.
+      + intros u. destruct (B u) as [B1|[(r & R1 & R2 & R3)|(y & Y1 & Y2 & Y3 & Y4)]]; [left; exact B1|right; left|right; right].
+        * assert (y0 <> x) by (intros ->; lia). destruct (I_own _ I u r R1) as (_ & Pr & _).
+          exists r. rewrite (E1 y0), (E1 r) by (try assumption; apply PX; exact Pr).
+          split; [apply OWK; exact R1|]. split; [exact R2|eapply Nat.le_trans; [exact R3|apply CM]].
+        * assert (y0 <> x) by (intros ->; lia). assert (y <> x) by (intros ->; lia).
+          exists y. change (kind s' y) with (kind s y). change (freed s' y) with (freed s y). rewrite !E1 by assumption.
+          split; [exact Y1|]. split; [exact Y2|]. split; [exact Y3|].
+          destruct Y4 as [(t' & T1 & T2)|(v & V & W2)]; [left|right].
+          -- exists t'. split; [apply OWK; exact T1|eapply Nat.le_trans; [exact T2|apply CM]].
+          -- exists v. split; [apply RL; exact V|exact W2].
+    - (* I_cas *) intros u y g0 e0 H. assert (u <> t) by (intros ->; rewrite PCt in H; discriminate).
+      rewrite PC in H by assumption. unfold nvl. rewrite HN. apply (I_cas _ I u y g0 e0 H).
+    - apply (I_race _ I).
+  Qed.
+
+  Lemma step_ACas s t spur : Inv s -> ok s (ACas t spur) -> Inv (step s (ACas t spur)).
+  Proof.
+    intros I Hok. destruct (ok_tag _ _ Hok) as [Ht Htag]. cbn [actor at_tag] in *.
+    unfold pcT in Htag. destruct (pc (ths s t)) eqn:Ep; try discriminate. clear Htag.
+    unfold step. rewrite Ep.
+    set (m := if e then o_e_cas o else o_r_cas o).
+    assert (Hr : is_rel m = true) by (unfold m; destruct e; assumption).
+    assert (Ha : is_acq m = true) by (unfold m; destruct e; assumption).
+    destruct (cas_msg s t m (pz (S x)) I Hr Ha) as (pv & M1 & M2 & M3 & M4 & M5 & M6).
+    destruct (Nat.eqb (zp (read_val 0%Z (hs s L_ZH) 0)) g && negb spur) eqn:Ec.
+    - apply andb_true_iff in Ec as [Ec _]. apply Nat.eqb_eq in Ec. rewrite M1.
+      eapply (cas_succ_inv s t x g e _ _ pv); eauto.
+      + intros Hg. apply M5. congruence.
+      + intros y Hy. apply M6. congruence.
+    - apply cas_fail_inv with (g := g); [exact I|exact Ep|apply rmw_clock_mono].
+  Qed.
+
+  (* the creator's store to next of its not yet published record (state otherwise unchanged) *)
+  Lemma store_nx_inv s t x g e m v : Inv s -> pcT s t = RSt x g e ->
+    Inv (St (ths s) (clk s) (fupd (hs s) (L_nx x) (store_msg m t (clk s t) v :: hs s (L_nx x)))
+            (fupd (seen s) t (fupd (seen s t) (L_nx x) (S (length (hs s (L_nx x))))))
+            (nrec s) (kind s) (recs s) (nods s) (race s) (stp s) (crt s) (pubv s) (wm s) (freed s)).
+  Proof.
+    intros I Hp. assert (Hreg : regx (pcT s t) = Some (x, e)) by (rewrite Hp; reflexivity). set (s' := St _ _ _ _ _ _ _ _ _ _ _ _ _ _).
+    destruct (I_reg _ I t x e Hreg) as (X1 & X2 & X3 & X4 & X5).
+    assert (HN : forall y, y <> x -> hs s' (L_nx y) = hs s (L_nx y)).
+    { intros y Hy. unfold s'. cbn [hs]. rewrite fupd_ne by (unfold L_nx; lia). reflexivity. }
+    assert (HO : forall y, hs s' (L_ow y) = hs s (L_ow y)).
+    { intros y. unfold s'. cbn [hs]. rewrite fupd_ne by (unfold L_nx, L_ow; lia). reflexivity. }
+    assert (HZ : hs s' L_ZH = hs s L_ZH).
+    { unfold s'. cbn [hs]. rewrite fupd_ne by (unfold L_nx, L_ZH; lia). reflexivity. }
+    assert (HX : hs s' (L_nx x) = store_msg m t (clk s t) v :: hs s (L_nx x)) by (unfold s'; cbn [hs]; rewrite fupd_eq; reflexivity).
+    assert (PX : forall y, pub s y -> y <> x) by (intros y Py ->; unfold pub in Py; lia).
+    assert (RL : forall y w, rel s' y w <-> rel s y w) by (intros y w; unfold rel; rewrite HO; tauto).
+    destruct I as [J1 J2 J3 J4 J5 J6 J7 J8 J9 J10 J11 J12 J13 J14 J15 J16 J17 J18 J19 J20 J21].
+    constructor; try assumption.
+    - intros u l. unfold s'. cbn [seen hs]. specialize (J1 u l). destruct (Nat.eq_dec l (L_nx x)) as [->|Hl].
+      + rewrite fupd_eq. cbn [length]. unfold fupd at 1. eqd u t; [rewrite fupd_eq; lia|lia].
+      + rewrite (fupd_ne (hs s)) by exact Hl. unfold fupd at 1. eqd u t; [rewrite fupd_ne by exact Hl; exact J1|exact J1].
+    - intros y Hy. change (nrec s') with (nrec s) in Hy. rewrite HN, HO by lia. apply J8. exact Hy.
+    - intros y j m0 H. destruct (Nat.eq_dec y x) as [->|Hy]; [|rewrite HN in H by exact Hy; apply (J12 y j m0 H)].
+      rewrite HX in H. destruct j as [|j]; cbn in H; [|apply (J12 x j m0 H)].
+      inversion H; subst m0. unfold store_msg. cbn [mwho mwhen]. change (crt s' x) with (crt s x). change (clk s' (crt s x)) with (clk s (crt s x)).
+      rewrite X3. split; [reflexivity|]. split; [lia|]. intros _ P. unfold pub in P. change (stp s' x) with (stp s x) in P. lia.
+    - intros y Py Hw. unfold nxt_ok, nvl. rewrite HN by (apply PX; exact Py). apply (J13 y Py Hw).
+    - intros y. rewrite HO. destruct (J14 y) as (A & B & C). split; [destruct A as [A|[w A]]; [left; exact A|right; exists w; apply RL; exact A]|]. split; [|exact C].
+      intros w Hr. apply RL in Hr. destruct (B w Hr) as (B1 & B2 & B3). split; [exact B1|]. split; [exact B2|]. rewrite HN by (apply PX; exact B2). exact B3.
+    - intros u r H. rewrite HO. apply (J15 u r H).
+    - intros u r n c b H1 H2. destruct (J17 u r n c b H1 H2) as (z & A & B & C & D & F & G & K). exists z.
+      split; [exact A|]. split; [exact B|]. split; [exact C|]. split; [exact D|]. split; [|split; [|exact K]].
+      + intros y Py Hy. destruct (F y Py Hy) as [Q|(w & Q1 & Q2)]; [left; exact Q|right; exists w; split; [apply RL; exact Q1|exact Q2]].
+      + intros Hb. destruct (G Hb) as [Q|(w & Q1 & Q2)]; [left; exact Q|right; exists w; split; [apply RL; exact Q1|exact Q2]].
+    - intros u r n H1 H2. destruct (J18 u r n H1 H2) as (A & B & C & D). split; [exact A|]. split; [|split; [exact C|exact D]].
+      intros y Py Hy. destruct (B y Py Hy) as [Q|[Q|(w & Q1 & Q2)]]; [left; exact Q|right; left; exact Q|right; right; exists w; split; [apply RL; exact Q1|exact Q2]].
+    - intros y0. destruct (J19 y0) as [A B]. split; [exact A|]. intros u.
+      destruct (B u) as [B1|[B1|(y & Y1 & Y2 & Y3 & [Y4|(w & Y4 & Y5)])]]; [left; exact B1|right; left; exact B1|right; right|right; right].
+      + exists y. auto.
+      + exists y. split; [exact Y1|]. split; [exact Y2|]. split; [exact Y3|]. right. exists w. split; [apply RL; exact Y4|exact Y5].
+    - intros u y g0 e0 H. change (pcT s' u) with (pcT s u) in H. unfold nvl. rewrite HN; [apply (J20 u y g0 e0 H)|].
+      intros ->. destruct (J9 u x e0) as (_ & _ & C1 & _); [rewrite H; reflexivity|].
+      assert (u = t) by congruence. subst u. congruence.
+  Qed.
+
+  Lemma step_ASt s t : Inv s -> ok s (ASt t) -> Inv (step s (ASt t)).
+  Proof.
+    intros I Hok. destruct (ok_tag _ _ Hok) as [Ht Htag]. cbn [actor at_tag] in *.
+    unfold pcT in Htag. destruct (pc (ths s t)) eqn:Ep; try discriminate. clear Htag.
+    unfold step. rewrite Ep. unfold store.
+    set (m := if e then o_e_st o else o_r_st o).
+    pose proof (store_nx_inv s t x g e m (pz g) I Ep) as I1.
+    set (s1 := St _ _ _ _ _ _ _ _ _ _ _ _ _ _) in I1.
+    change (Inv (upd_t s1 t (Th (RCas x g e) (own (ths s t))) (vinc (clk s t) t) (seen s1) (race s))).
+    rewrite (I_race _ I). apply upd_t_inv; cbn [pc own]; auto.
+    - apply vle_inc.
+    - apply (I_seen _ I1).
+    - unfold pcT. change (ths s1) with (ths s). rewrite Ep. cbn. auto.
+    - unfold pcT. change (ths s1) with (ths s). rewrite Ep. intros x0 [H|[m0 H]]; discriminate.
+    - unfold pcT. change (ths s1) with (ths s). rewrite Ep. discriminate.
+    - discriminate.
+    - discriminate.
+    - intros x0 g0 e0 H. inversion H; subst x0 g0 e0. unfold nvl, s1. cbn [hs]. rewrite fupd_eq. unfold read_val. cbn. apply zp_pz.
   Qed.
